@@ -43,6 +43,8 @@ def run(ctx):
     appenders = find_appenders(ctx)
     d2_data_owners(ctx, committer, appenders)         # D3 owners
     d3_commit_follows(ctx, committer, appenders)
+    from ._shared import reset_handler_protects_write_only
+    ctx.floor('handlers that empty the data file', reset_handler_protects_write_only(ctx, 'D3', committer), 1)
     from .C17 import truncate_commit_matches_resize
     truncate_commit_matches_resize(ctx, 'D3', committer)
     # a failed append leaves file length == descriptor length: recovery handler (shared with C09)
